@@ -8,7 +8,7 @@ IO_ASM = "std::io::Read/Write + byteorder contracts (prelude/base.rs): sized rea
 DUPLEX_ASM = "transport duplex axiom (prelude/base.rs axiom_duplex): reading does not change what was written and vice versa (rule R3 adds the marker bound)"
 
 # units under construction: never part of a property check
-DEV_UNITS = {"codec16", "rc4", "ntlm", "engine2", "connector"}
+DEV_UNITS = {"codec16"}
 
 PROPERTIES = {
     "C13": dict(
@@ -156,6 +156,55 @@ PROPERTIES.update({
         level_note="the 'strict independent parser' of the statement is represented by these equalities with transcribed layouts; trusted: " + ENGINE_ASM + " (serialization = in-order concatenation of the non-skipped fields: being verified for the real engine code in unit engine2); NTLM / CredSSP tokens: DER is external, NTLM field offsets are in unit ntlm",
         assumptions=[ENGINE_ASM, "UTF-16LE of std::str::encode_utf16 (prelude/unicode.rs: only length facts are used)", DER_ASM],
         design_ref="DESIGN.md §7 C04"),
+})
+
+HASH_ASM = "MD4 / MD5 / HMAC-MD5 (crates md4, md-5, hmac) are uninterpreted functions md4_spec / md5_spec / hmac_md5_spec with 16-byte results (unit ntlm, trusted Raw ntlm_specs); String::to_uppercase is the uninterpreted `upper`; rand is any byte string of the requested length"
+TWIN_ASM = ("three trait-impl methods (Ntlm::read_challenge_message, Ntlm::build_security_interface, NTLMv2SecurityInterface::gss_wrapex) need call-order preconditions (negotiate created first, exported key present, sequence number below 2^32-1) "
+            "that a trait impl cannot carry in Verus: their real bodies are verified under those preconditions as inherent `_checked` twins (same extracted text, rule impl_sub); cssp_connect calls them in that order (unit cssp, via the trait contract)")
+PROPERTIES.update({
+    "C03": dict(
+        scope="safety half of the statement, for every server byte stream and configuration: IF Connector::connect / global::Client::read return Ok THEN the wire trace is, in this order, the negotiation request announcing the configured mode and offer "
+              "(x224::Client::connect, write_connection_request byte-exact), then (NLA) exactly three CredSSP messages with the credentials last, one MCS connect-initial frame, erect-domain, attach-user, one channel-join per channel carrying the user id "
+              "the server assigned (read_attach_user_confirm: id = wire value + 1001; read_channel_join_confirm: confirm must repeat both ids), Client Info on the global channel with that user id, the licence exchange accepting only NewLicense / valid-client error alert, "
+              "and per demand-active exactly confirm-active, synchronize, control-cooperate, control-request, font-list (byte-exact, share id and user id from the server's PDUs); identifiers handed to the global channel are the MCS ones; "
+              "mcs/x224/tpkt/link shutdown chain writes exactly one disconnect-provider-ultimatum frame. NOT covered: the liveness half ('connecting succeeds against every conforming server'): a contract cannot quantify over conforming servers; accepting replies is covered only as 'these reply bytes are accepted' clauses",
+        technique="contract-based deductive verification: Verus (z3); ordering = chained trace-append postconditions (is_prefix / =~= over the ghost written() sequence) composed through every layer's contract",
+        level_note="trusted: " + ENGINE_ASM + "; " + MCS_ASM + "; " + TLS_ASM + "; " + DER_ASM + "; " + ASN1_ASM + " (connect-initial payload is an existential `ci`); global::Client and Ntlm are opaque in unit connector (their contracts are proved in units session and ntlm)",
+        assumptions=[ENGINE_ASM, MCS_ASM, TLS_ASM, DER_ASM, ASN1_ASM, IO_ASM, DUPLEX_ASM],
+        design_ref="DESIGN.md §7 C03"),
+    "C17": dict(
+        scope="Connector::connect (real body): the request announces restricted-admin (flag byte 1) exactly when configured and offers SSL|Hybrid iff use_nla; the last frame of a successful connect is the Client Info PDU whose domain / user / password are the "
+              "configured strings, or all three EMPTY in restricted-admin mode, auto-logon flag bit 0x8 set iff requested; sec::connect requires a TLS link (tls-before-client-info) and writes nothing else; cssp_connect (real body): the credentials structure is built from "
+              "empty strings iff restricted admin / blank credentials (claim credentials-by-mode), and is written only sealed by the security interface (claim credentials-only-sealed); NTLM: the password reaches any token only through nt_hash_of(password) -> HMAC keys "
+              "(Ntlm::new ensures), negotiate/authenticate tokens are functions of those keys and the names, never of the password text",
+        technique="contract-based deductive verification: Verus (z3); information-flow part expressed as functional dependence (token == f(nt_hash, names, challenge ...)) in the postconditions",
+        level_note="'never appears on the raw transport' is covered as: every write of a secret-bearing message is behind a `tls()` precondition discharged at each call site; that TLS hides it is the " + TLS_ASM + ". Non-interference proper (absence of any other flow) is not a Verus contract: what is proved is that each emitted byte string equals a spec function whose arguments do not include the password except where stated. " + HASH_ASM,
+        assumptions=[TLS_ASM, ENGINE_ASM, MCS_ASM, DER_ASM, HASH_ASM],
+        design_ref="DESIGN.md §7 C17"),
+    "C07": dict(
+        scope="cssp_connect, read_ts_* wrappers' callers, Ntlm::read_challenge_message (twin), get_payload_field, read_target_info, gss_unwrapex, authenticate_message, message_signature_ex, mac, Rc4::process (real bodies) are proved TOTAL for arbitrary server bytes: no overflow, "
+              "no failing index / unwrap / slice, every loop has a measure (read_target_info decreases the remaining input: every AV pair consumes >= 4 bytes), payload (len, offset) pairs are checked against the message before slicing (r == subrange of the serialized message), "
+              "AV values are bounded by the input length, token lists may be empty (error, no index panic), a CHALLENGE without timestamp is accepted",
+        technique="contract-based deductive verification: Verus (z3) on function bodies extracted from /repo on every run",
+        level_note="trusted: " + DER_ASM + " (yasna parsing of hostile TSRequest bytes is outside: assumed to return or fail); " + ENGINE_ASM + "; " + HASH_ASM + "; " + TWIN_ASM,
+        assumptions=[DER_ASM, ENGINE_ASM, HASH_ASM, TWIN_ASM, IO_ASM],
+        design_ref="DESIGN.md §7 C07"),
+    "C15": dict(
+        scope="relative to uninterpreted MD4/MD5/HMAC-MD5: ntowfv2 / ntowfv2_hash / lmowfv2 equal NTOWFv2 of MS-NLMP 3.3.2 (spec written from the document); compute_response_v2 returns NTProofStr ++ temp with nt_response_verifies / lm_response_verifies (the server-side check recomputed from the account key) "
+              "and the session base key; kx_key_v2; rc4k == RC4(key) with lemma_rc4k_unwrap (unwrap(wrap(k)) == k for every key); mic == HMAC_MD5(exported key, negotiate ++ challenge ++ authenticate-with-zero-mic); authenticate_message: the six (len, maxlen, offset) descriptors address exactly their fields "
+              "(lemma_auth_fields_addressed) whenever each field is <= 0xffff bytes; lemma_new_from_hash_agree: Ntlm::new(d,u,p) and Ntlm::from_hash(d,u,MD4(UTF16(p))) have equal response keys; RC4 (src/nla/rc4.rs real bodies) equals the textbook KSA/PRGA spec for every key length 1..256 and every message",
+        technique="contract-based deductive verification: Verus (z3); the 'independent server' is the set of spec functions transcribed from MS-NLMP 3.3.2 / 3.4.4, proved lemmas for the inverse directions",
+        level_note=HASH_ASM + "; " + TWIN_ASM + "; the end-to-end token clause quantifies server challenge / time / target info existentially because the " + ENGINE_ASM + " does not tie Dyn-layout values to request bytes; fields above 0xffff bytes truncate their 16-bit length (observation, DESIGN.md §9)",
+        assumptions=[HASH_ASM, TWIN_ASM, ENGINE_ASM],
+        design_ref="DESIGN.md §7 C15"),
+    "C16": dict(
+        scope="mac == MS-NLMP 3.4.4.2 MAC with extended session security (version 1, RC4(handle, HMAC_MD5(signkey, seq ++ msg)[0..8]), seq) and advances the cipher handle by 8; sign_key / seal_key == MD5(key ++ magic constant) with the four constants written out from the document; "
+              "gss_wrapex (twin) == seal_spec: RC4 ciphertext ++ signature, handle advanced by |m| + 8, seq_num + 1, nothing else changed (state carries over: induction over any message sequence); gss_unwrapex (no precondition): Ok iff token >= 16 bytes, version word 1 and decrypted checksum equals the recomputed HMAC prefix, "
+              "then returns the plaintext; Err otherwise with no plaintext returned (claim rejection-only-on-mismatch); proved lemmas lemma_unwrap_wrap (unwrap(wrap(m)) == Some(m) for mirrored contexts) and lemma_mirrored_contexts; Rc4 (real bodies) == KSA/PRGA spec with keystream-split lemma (cipher state carries over)",
+        technique="contract-based deductive verification: Verus (z3); round trip and state carry-over as proved lemmas over the spec functions used in the contracts",
+        level_note=HASH_ASM + "; " + TWIN_ASM + "; " + CRYPTO_ASM + " (so 'any alteration is rejected' is proved as: a token is accepted only if its checksum field equals the HMAC prefix of the decrypted text; that a flipped bit changes HMAC is the cryptographic assumption); gss_unwrapex does not compare the received sequence number (observation)",
+        assumptions=[HASH_ASM, TWIN_ASM, CRYPTO_ASM],
+        design_ref="DESIGN.md §7 C16"),
 })
 
 NOT_APPLICABLE = {
